@@ -61,7 +61,7 @@ Theorem C10_no_lost_wakeup : forall N parent, tree_ok N parent -> forall s, reac
      (qu s c <> [] \/ job (th s c) <> (-1)%Z \/ self (th s c) = true) -> flag s c = true) /\
   ((pc (th s 0) = PWait KAck \/ pc (th s 0) = PWait KQuit) -> qu s 0 <> [] -> flag s 0 = true) /\
   (pc (th s 0) = PWait KTop -> (search s = true \/ quitf s = true) ->
-     flag s 0 = true \/ epc s = ENotifyGo).
+     flag s 0 = true \/ epc s <> EIdle).
 Proof. exact no_lost_wakeup. Qed.
 Print Assumptions C10_no_lost_wakeup.
 
